@@ -544,15 +544,27 @@ func main() {
 	anchors := flag.String("anchors", "anchors.json", "anchor file")
 	out := flag.String("out", "", "output root (the coq directory)")
 	flag.Parse()
-	data, err := os.ReadFile(*anchors)
-	if err != nil {
-		fmt.Fprintln(os.Stderr, "translator:", err)
-		os.Exit(2)
-	}
+	// -anchors names a file or a directory of *.json fragments (each a list of File entries).
 	var files []File
-	if err := json.Unmarshal(data, &files); err != nil {
-		fmt.Fprintln(os.Stderr, "translator: anchors.json:", err)
-		os.Exit(2)
+	var paths []string
+	if st, err := os.Stat(*anchors); err == nil && st.IsDir() {
+		paths, _ = filepath.Glob(filepath.Join(*anchors, "*.json"))
+		sort.Strings(paths)
+	} else {
+		paths = []string{*anchors}
+	}
+	for _, ap := range paths {
+		data, err := os.ReadFile(ap)
+		if err != nil {
+			fmt.Fprintln(os.Stderr, "translator:", err)
+			os.Exit(2)
+		}
+		var fs []File
+		if err := json.Unmarshal(data, &fs); err != nil {
+			fmt.Fprintln(os.Stderr, "translator:", ap+":", err)
+			os.Exit(2)
+		}
+		files = append(files, fs...)
 	}
 	status := 0
 	for _, fl := range files {
